@@ -99,6 +99,7 @@ Pow2(n) == IF n = 0 THEN 1 ELSE 2 * Pow2(n - 1)
 (* Model checking: every state is one histogram; there is no behaviour.    *)
 (* Family A: r symbols of count 1 followed by d symbols of counts          *)
 (* big, big+1, ...  Family B: all sequences of length 1..MaxLen over Menu. *)
+(* Family C: rounding boundaries (count f, total near 2*f*scale/(2k+1)).   *)
 (***************************************************************************)
 CONSTANTS Impl, MaxRare, MaxDom, Bigs, LRs, MaxLen, Menu, Fam
 
@@ -114,6 +115,13 @@ Init == /\ lr \in LRs
                    /\ r + d >= 1 /\ r + d <= 256 /\ r + d <= Pow2(lr)
                    /\ r + d * (big + d) < 1000000000 \div Pow2(lr)      \* keeps every product below 2^31 (TLC integers)
                    /\ hist = FamilyA(r, d, big)
+           ELSE IF Fam = "C"
+           THEN \* rounding boundaries of the quantisation: a symbol of count f in a total where f*scale/total = k + 1/2 (+-1)
+                \E f \in 1..MaxDom, k \in 0..3, dl \in {-1, 0, 1}, three \in BOOLEAN :
+                   LET T == (2 * f * Pow2(lr)) \div (2 * k + 1) + dl IN
+                   /\ T - f - 1 >= 1
+                   /\ T < 1000000000 \div Pow2(lr)
+                   /\ hist = IF three THEN <<f, 1, T - f - 1>> ELSE <<f, T - f>>
            ELSE /\ hist \in SeqsUpTo(MaxLen)
                 /\ Sum(hist) < 1000000000 \div Pow2(lr)
         /\ res = Normalize(Impl, hist, Sum(hist), Pow2(lr))
